@@ -212,6 +212,15 @@ func genConSession(r *rand.Rand, i int) J {
 		ops = append(ops, op)
 	}
 	c["ops"] = ops
+	// an include served from the engine's cache, while other goroutines add to the cache
+	c["cache"] = []any{[]any{bs("zz_cached_inc.liq"), []any{nText("[inc:"), nObj(eVar("s")), nText("]")}}}
+	templates = append(templates, []any{nText("<"), J{"t": "include", "e": eLit(vStr("zz_cached_inc.liq"))}, nText(">")})
+	c["templates"] = templates
+	for k := 0; k < 12; k++ {
+		ops = append(ops, J{"t": len(templates) - 1, "b": r.Intn(nenv), "entry": pick(r, entries)})
+	}
+	c["ops"] = ops
+	c["cachewriters"] = 2
 	return c
 }
 
